@@ -75,7 +75,7 @@ Section RoFS.
   Notation run0 := (run0 base_step ff).
   Notation run1 := (run1 base_step T ff).
   Notation call_obj := (call_obj base_step T ff).
-  Notation wstep := (wstep base_step T ff comp_prog).
+  Notation wrap_wstep := (wrap_wstep base_step T ff comp_prog).
   Notation wrun := (wrun base_step T ff comp_prog).
 
   Definition all_wrapped (os : objs) : Prop := forall id o, In (id, o) os -> wo_wrapped o = true.
@@ -251,9 +251,9 @@ Section RoFS.
 
   Lemma wstep_ok (w : world) c :
     all_wrapped (w_objs w) ->
-    step_ok w c (fst (wstep w c)) (snd (wstep w c)).
+    step_ok w c (fst (wrap_wstep w c)) (snd (wrap_wstep w c)).
   Proof.
-    intros Hw. unfold wstep, Wrapper.call_obj, step_ok.
+    intros Hw. unfold wrap_wstep, Wrapper.call_obj, step_ok.
     destruct (olookup (c_obj c) (w_objs w)) as [o|] eqn:Eo.
     - rewrite (Hw _ _ (olookup_in _ _ _ Eo)).
       destruct (run1_ok (comp_cb base_step T ff comp_prog (c_obj c))
@@ -266,7 +266,7 @@ Section RoFS.
   Fixpoint steps_ok (w : world) (cs : list ccall) (rs : list wres) : Prop :=
     match cs, rs with
     | [], [] => True
-    | c :: cs', r :: rs' => step_ok w c r (snd (wstep w c)) /\ steps_ok (snd (wstep w c)) cs' rs'
+    | c :: cs', r :: rs' => step_ok w c r (snd (wrap_wstep w c)) /\ steps_ok (snd (wrap_wstep w c)) cs' rs'
     | _, _ => False
     end.
 
@@ -281,7 +281,7 @@ Section RoFS.
     induction cs as [|c cs IH]; intros w Hw; cbn.
     - auto.
     - pose proof (wstep_ok w c Hw) as Hs.
-      destruct (wstep w c) as [x w1] eqn:E1. cbn [fst snd] in Hs.
+      destruct (wrap_wstep w c) as [x w1] eqn:E1. cbn [fst snd] in Hs.
       assert (Hw1 : all_wrapped (w_objs w1)) by apply Hs.
       destruct (IH w1 Hw1) as (Ht & Ha & Hrest).
       destruct (wrun w1 cs) as [xs w2] eqn:E2. cbn [fst snd] in *.
@@ -291,7 +291,7 @@ Section RoFS.
   (* OpenFile admits exactly flag = O_RDONLY - for every integer flag *)
   Theorem rofs_openflags : forall (w : world) id o n flag perm bind,
     all_wrapped (w_objs w) -> olookup id (w_objs w) = Some o ->
-    let rw := wstep w (mkCall id (MV V_OpenFile) [AS n; AI flag; AI perm] bind) in
+    let rw := wrap_wstep w (mkCall id (MV V_OpenFile) [AS n; AI flag; AI perm] bind) in
     (flag <> O_RDONLY -> refused (fst rw) /\ snd rw = w) /\
     (flag = O_RDONLY -> exists q,
         same_answer (r_ans (fst rw)) bind (MV V_OpenFile)
